@@ -126,6 +126,28 @@ def run(ctx, report):
                 r_nat.finding(f"{cc}:built-invalid", f"{cc}: BBAN {b1!r} built by from_components does not pass the national check ({_s(ok)}): computing and validating disagree",
                               h.bban.methods["validate_national_checksum"].where, witness={"country": cc, **vals})
 
+    def spelled_body(cc, rules):
+        # the same build with the country code spelled in lower case: a library error (today's answer) or a BBAN that passes the national check -
+        # never a BBAN whose check digits were left uncomputed because the algorithm was looked up under another spelling
+        r_nat = rules["R09-built-valid"]
+        fields = country_fields(reg, cc)
+        vals = {c: pattern(fields[c][2], salt=3 * i) for i, c in enumerate(GUARDED) if c in fields}
+        for spelled in (cc.lower(), cc[0] + cc[1].lower()):
+            res = h.from_components(spelled, **vals)
+            r_nat.instance({"country code as given": spelled, "outcome": res[1].name if res[0] == "exc" else res[1]} if cc == "BE" else None)
+            if res[0] == "exc":
+                if not is_library_exc(prog, res[1]):
+                    r_nat.finding(f"{cc}:spelled:{res[1].name}", f"from_components({spelled!r}, ...) raises {res[1].name} at {res[1].where}", res[1].where, witness={"country": spelled, **vals})
+                continue
+            ok = h.national_ok(res[2])
+            if ok != ("ret", True):
+                r_nat.finding(f"{cc}:spelled-invalid", f"from_components({spelled!r}, {vals}) returns {res[1]!r}, which does not pass the national check ({_s(ok)}): the country code is "
+                              "accepted in this spelling but the check digits were not computed for it", h.bban.methods["from_components"].where, witness={"country": spelled, **vals})
+
+    computing = [cc for cc in countries if f"{cc}:default" in regs and cc not in NAT.VERDICT]
+    for recs, _ in run_recorded(["R09-built-valid"], spelled_body, computing):
+        replay({"R09-built-valid": r_nat}, recs, cap=8)
+
     for recs, _ in run_recorded(["R09-readback", "R09-built-valid"], readback_body, countries):
         replay({"R09-readback": r_rb, "R09-built-valid": r_nat}, recs, cap=8)
 
